@@ -47,6 +47,7 @@ class Ctx:
     guards: list = []        # (If-term, guard condition) of every symbolic where
     index_obl: list = []     # (description, ok: bool)  gather/scatter index obligations
     hint_obl: list = []      # (hint name, ok, indices) promises made to XLA about scatter indices
+    exp_args: list = []      # arguments of every exp evaluated by the code under verification
     api_calls: dict = {}     # primitive name -> number of conformant calls
     facts: list = []         # facts contributed by contract stubs (callee ensures)
     call_obl: list = []      # (name, z3 Bool) obligations raised at call sites (callee requires)
@@ -60,6 +61,7 @@ class Ctx:
         cls.guards = []
         cls.index_obl = []
         cls.hint_obl = []
+        cls.exp_args = []
         cls.api_calls = {}
         cls.facts = []
         cls.call_obl = []
@@ -313,10 +315,14 @@ def _short(e, n=80):
 # ----------------------------------------------------------------------------------------------
 # transcendental scalars
 # ----------------------------------------------------------------------------------------------
-def sexp(s):
+def sexp(s, quiet=False):
+    """exp; every evaluated argument is logged (overflow obligation: argument bounded above) unless the call comes from a
+    primitive model that JAX implements in an overflow-safe way (nn.sigmoid, nn.softplus)"""
     s = Sym.lift(s)
     if s.c is not None and s.c == 0:
         return Sym(1, d=s.d)
+    if not quiet and s.c is None:
+        Ctx.exp_args.append(s.e)
     return Sym(E(s.e), d=s.d)
 
 
@@ -921,12 +927,12 @@ def expm1(x):
 
 @model(_real_jax.nn.sigmoid, "nn.sigmoid")
 def nn_sigmoid(x):
-    return _ew1(lambda s: Sym(1) / (Sym(1) + sexp(-Sym.lift(s))), x)
+    return _ew1(lambda s: Sym(1) / (Sym(1) + sexp(-Sym.lift(s), quiet=True)), x)
 
 
 @model(_real_jax.nn.softplus, "nn.softplus")
 def nn_softplus(x):
-    return _ew1(lambda s: slog(Sym(1) + sexp(s)), x)
+    return _ew1(lambda s: slog(Sym(1) + sexp(s, quiet=True)), x)
 
 
 @model(_real_jnp.tanh)
